@@ -199,8 +199,16 @@ class Gen:
     def load(self, slot):
         mi = self.m.inst[slot]
         b = self.rng.choice("pcf")
+        touched = sorted(n for n in set(mi["sfo"]) | set(mi["sso"]) if n != 1 and (mi["sfo"].get(n) or mi["sso"].get(n)))
         mi.update(cur=1, sfo={1: 0}, sso={1: 0}, db=True, acc=[], acc_pending=False, nerr=0, nwarn=0, errtxt="", warntxt="", defined=set(), failed=False)
         self.op("call %s %s LoadDatabase %s" % (slot, b, os.path.join(self.ctx.db, "phreeqc.dat")), self.expect_r("LoadDatabase", 0, "live", b))
+        # every user number whose switches were on before the load is looked at again: the load puts all of them back to their defaults, not only number 1
+        if touched and self.rng.random() < 0.7:
+            for n in touched[:3]:
+                b2 = self.rng.choice("pcf")
+                mi["cur"] = n
+                self.op("call %s %s SetCurrentSelectedOutputUserNumber %d" % (slot, b2, n), self.expect_r("SetCurrentSelectedOutputUserNumber", 0, "live", b2 + ":after-load"))
+                self.probe(slot)
 
     def run(self, slot):
         mi = self.m.inst[slot]
